@@ -176,10 +176,12 @@ Definition oparam (z : Z) : option bool := if z =? 2 then None else Some (z =? 1
 
 (* _get_expanded_coords_data(coords, data, params, broadcast_shape) -> (coords (as tuples), data);
    params coded 0 False / 1 True / 2 None *)
-Definition judge_expand (c : list idx * list Z * list Z * shape * list idx * list Z) : Z :=
-  let '(coords, data, params, bsh, ocoords, odata) := c in
+(* last component: the returned coordinate matrix has dtype intp (the model's coordinates are exact
+   integers; a narrower matrix would wrap along long broadcast axes) *)
+Definition judge_expand (c : list idx * list Z * list Z * shape * list idx * list Z * bool) : Z :=
+  let '(coords, data, params, bsh, ocoords, odata, intp) := c in
   let '(mc, md) := expand_coords_data coords data (map oparam params) bsh in
-  if zll_eqb mc ocoords then (if zl_eqb md odata then 0 else 2) else 1.
+  if negb (zll_eqb mc ocoords) then 1 else if negb (zl_eqb md odata) then 2 else if negb intp then 3 else 0.
 
 Definition res_shape_eqb (r : res shape) (o : option shape) : bool :=
   match r, o with
